@@ -54,14 +54,14 @@ theorem word_functions_are_fips (x y z : UInt32) :
 /-- one `Transform` call (rolling 16-word window, rotating register index, macro `R`) is the
 compression function of FIPS 180-4 §6.2.2, for every chaining value and every block -/
 theorem transform_eq_fips (state data : List UInt32) (hs : state.length = 8) (hd : data.length = 16) :
-    transform state data = Spec.compress state data :=
+    transform state data = (Spec.compress state data, true) :=
   transform_eq_compress state data hs hd
 
 /-- the result of `Transform` does not depend on the (in C++ uninitialised) initial content of its
 local array `W[16]`: every cell is written before it is read -/
 theorem transform_ignores_uninitialised_W (w0 state data : List UInt32) (hw : w0.length = 16)
     (hs : state.length = 8) (hd : data.length = 16) :
-    transformFrom w0 state data = Spec.compress state data :=
+    transformFrom w0 state data = (Spec.compress state data, true) :=
   transformFrom_eq_compress w0 state data hw hs hd
 
 /-- the padded message of the spec is a whole number of 64-byte blocks (so `Spec.hashBlocks`, which
@@ -81,7 +81,8 @@ theorem hash_eq_fips (m : List UInt8) (hlen : m.length < 2 ^ 61) : hash m = Spec
   have := streaming [m] (by simpa using hlen)
   simpa [hash] using this
 
-/-- a hasher is reusable (`Reusable`: initial hash value, count 0, buffer of arbitrary content)
+/-- a hasher is reusable (`Reusable`: initial hash value, count 0, 64-byte buffer of arbitrary content,
+no out-of-range read recorded)
 when constructed, after `finalize()` (whatever was hashed before) and after `reset()` (whatever
 was fed before, of any length); and on every reusable hasher every chunking gives the FIPS digest -/
 theorem reusable_after_finalize_or_reset :
@@ -91,12 +92,24 @@ theorem reusable_after_finalize_or_reset :
       Reusable (finalize (chunks.foldl update p)).2) ∧
     (∀ p : Sha, Reusable p → ∀ junk : List (List UInt8), Reusable (reset (junk.foldl update p))) := by
   refine ⟨(inv_nil_iff _).mp inv_init, fun p hp chunks h => digest_chunks p hp chunks h, fun p hp junk => ?_⟩
-  exact (inv_nil_iff _).mp (inv_reset _ (foldl_update_buffer_length junk p hp.2.2))
+  have hw := foldl_update_wellFormed junk p (reusable_wellFormed p hp)
+  exact (inv_nil_iff _).mp (inv_reset _ hw.1 hw.2.2)
+
+/-- the model's ghost flag `ok` ("no array read so far was out of range": `state[i]`, `buffer[i*4+k]`,
+`T[..] W[..] K[..] data[..]` inside `Transform`) stays true on every reusable hasher: through any
+sequence of `update` calls of any total length, and through `finalize` (writes are covered by the
+checked `wr`: an out-of-range write would destroy the array and falsify the digest theorems) -/
+theorem no_out_of_range_read (p : Sha) (hp : Reusable p) (chunks : List (List UInt8)) :
+    (chunks.foldl update p).ok = true ∧
+    (chunks.flatten.length < 2 ^ 61 → (finalize (chunks.foldl update p)).2.ok = true) :=
+  ⟨(foldl_update_wellFormed chunks p (reusable_wellFormed p hp)).2.2,
+   fun h => (digest_chunks p hp chunks h).2.2.2.2⟩
 
 /-- `Sha256::hmac` is HMAC (RFC 2104) over SHA-256 for every key (shorter than, equal to, longer
-than the block size) and every message -/
+than the block size) and every message; the second component says that no array read of the call
+(inside the hasher, and `hashKey[i]`) was out of range -/
 theorem hmac_eq_rfc2104 (key msg : List UInt8) (hk : key.length < 2 ^ 61) (hm : msg.length + 64 < 2 ^ 61) :
-    hmac key msg = Spec.hmacSha256 key msg :=
+    hmac key msg = (Spec.hmacSha256 key msg, true) :=
   hmac_eq key msg hk hm
 
 /-! ### non-vacuity: the hypotheses are met by concrete non-trivial inputs -/
